@@ -122,16 +122,17 @@ def readDigits (acc : Nat) : Str → Nat × Str
   | [] => (acc, [])
   | c :: r => if isDigit c then readDigits (acc * 10 + (c.toNat - '0'.toNat)) r else (acc, c :: r)
 
+def startsWithDigit : Str → Bool
+  | [] => false
+  | c :: _ => isDigit c
+
 /-- `0` or a digit string without leading zero -/
 def readNat : Str → Option (Nat × Str)
   | [] => none
   | c :: r =>
-    if c = '0' then
-      match r with
-      | [] => some (0, [])
-      | d :: _ => if isDigit d then none else some (0, r)
-    else if isDigit c then some (readDigits (c.toNat - '0'.toNat) r)
-    else none
+    if isDigit c = false then none
+    else if c = '0' ∧ startsWithDigit r = true then none
+    else some (readDigits 0 (c :: r))
 
 def readValue : Str → Option (Val × Str)
   | [] => none
